@@ -151,7 +151,7 @@ CLAIMS["C01"] = dict(
         "Also: the model's line step, segment fold and line splitter are total; every read of the message vector lies inside the frame its function "
         "can see (sites regenerated from the source); every field fits the u32 arithmetic of range_value; the only unbounded loop is the TCP retry loop; "
         "a hostile line is a no-op and the lines after it are processed. PARTIAL: that the row hypothesis (TableOK) is preserved by every step is "
-        "argued, not proved; functions outside the translated subset (reminder, float code, rendering, option parsing, main) are covered by the "
+        "argued, not proved; functions outside the translated subset (f64 trigonometry, rendering, option parsing, main) are covered by the "
         "reviewed arithmetic-site inventory and by the panic search: the real reader thread (overflow checks on, catch_unwind) and the built CLI run "
         "over exhaustive field sweeps, hostile lines and option sets; any panic or non-zero exit is a violation with the input as replay.",
    note="trusted: Lean kernel and standard axioms; the translator and the safety pass (which operations trap, how path conditions are collected: "
